@@ -13,7 +13,8 @@
    the parser is covered by the watchdog / oracle run of checks/c01.py only. *)
 From Coq Require Import List NArith ZArith.
 From Falco Require Import Base.Res Base.Bytes Base.Utf8 Gen.Tokens Model.Lex Model.Pump Model.LexSpec
-  Proofs.LexTables Proofs.LexProgress Proofs.LexToken Proofs.PumpTotal Proofs.LexTheorems Proofs.LexExamples.
+  Proofs.LexTables Proofs.LexProgress Proofs.LexToken Proofs.PumpTotal Proofs.LexView Proofs.LexLocated
+  Proofs.LexTheorems Proofs.LexExamples.
 Import ListNotations.
 
 (* Totality: for EVERY byte string the token loop (NextToken until the first EOF), run with the
@@ -45,6 +46,17 @@ Theorem C01_lex_ends_with_eof :
   forall s ts, tokens s = OK ts -> exists body e, ts = body ++ [e] /\ is_eof e = true.
 Proof. exact C01_lex_ends_with_eof_proof. Qed.
 
+(* Located: every token's (line, column) lies inside the input and designates the token's text.
+   [designates] (Model/LexSpec.v) is defined on the decoded input alone: the input splits as
+   pre ++ surface form ++ suf where (line, column) is the position following pre (lines and rune
+   columns counted from 1, a line feed ends its line).  Surface form: the literal; the quote + the
+   literal for STRING; brace + delimiter + quote for OPEN_LONG_STRING; the closing brace for
+   CLOSE_LONG_STRING (or the place where an unterminated long string stopped); EOF sits one
+   column past the last rune, or on the NUL byte that ends the input. *)
+Theorem C01_lex_located :
+  forall s ts t, tokens s = OK ts -> In t ts -> designates (dec_all s) t.
+Proof. exact lex_located. Qed.
+
 (* The parser's token pump: over ANY token list followed by a repeated EOF token, ReadPeek
    (LF / COMMENT / C! W! / pragma skipping) returns and the pump reaches EOF. *)
 Theorem C01_pump_total :
@@ -73,6 +85,7 @@ Print Assumptions C01_lex_no_crash.
 Print Assumptions C01_next_token_progress.
 Print Assumptions C01_lex_typed.
 Print Assumptions C01_lex_ends_with_eof.
+Print Assumptions C01_lex_located.
 Print Assumptions C01_pump_total.
 Print Assumptions C01_pump_no_crash.
 Print Assumptions C01_pump_source_returns.
